@@ -334,12 +334,10 @@ def coerceLeaf : C16Leaf → V → Option V
   | _, _ => none
 
 /-- every required argument / label of struct `s` is written (non-null) -/
+def written (fs : List (String × V)) (k : String) : Bool := fs.any fun p => p.1 == k && !isNullV p.2
+
 def requiredOK (T : Tables) (s : String) (fs : List (String × V)) : Bool :=
-  (hFields T s).all fun f =>
-    f.optional || (match fs.find? (fun p => p.1 == f.hcl) with
-      | some (_, .null) => false
-      | some _ => true
-      | none => false)
+  (hFields T s).all fun f => f.optional || written fs f.hcl
 
 mutual
 def coerceV (T : Tables) : C16HTy → V → Option V
